@@ -633,6 +633,7 @@ func runShard(c *Check, env *Env, opts RunOpts, base string, shard, of, n int, a
 		r := NewResult()
 		if timedOut {
 			r.Inconclusive = "watchdog"
+			fmt.Printf("NOTE: %s case %d hit the watchdog (inconclusive); engine frames in the goroutine dump: %s\n", c.ID, openIdx, hangFrames(filepath.Join(dir, "out.log")))
 			os.WriteFile(filepath.Join(dir, fmt.Sprintf("timeout-%d.log", openIdx)), []byte(tailFile(filepath.Join(dir, "out.log"), 1<<20)), 0644)
 			if hook := hangHook[c.ID]; hook != nil {
 				hook(env, openIdx, filepath.Join(dir, "out.log"), r)
@@ -853,4 +854,34 @@ func kindMatches(pattern, kind string) bool {
 		}
 	}
 	return false
+}
+
+// hangFrames lists the distinct innermost engine frames found in a goroutine dump.
+func hangFrames(p string) string {
+	b, err := os.ReadFile(p)
+	if err != nil {
+		return ""
+	}
+	seen := map[string]bool{}
+	var out []string
+	for _, g := range strings.Split(string(b), "\n\n") {
+		for _, line := range strings.Split(g, "\n") {
+			if strings.HasPrefix(line, "github.com/ryogrid/") {
+				f := line
+				if i := strings.LastIndex(f, "("); i > 0 {
+					f = f[:i]
+				}
+				f = strings.TrimPrefix(f, "github.com/ryogrid/SamehadaDB/lib/")
+				if !seen[f] {
+					seen[f] = true
+					out = append(out, f)
+				}
+				break
+			}
+		}
+		if len(out) >= 8 {
+			break
+		}
+	}
+	return strings.Join(out, " | ")
 }
